@@ -19,6 +19,8 @@
 #include <AIToolbox/Factored/MDP/CooperativeMaximumLikelihoodModel.hpp>
 #include <AIToolbox/Factored/MDP/CooperativeThompsonModel.hpp>
 #include <AIToolbox/Factored/Utils/Core.hpp>
+#include <AIToolbox/Seeder.hpp>
+#include <random>
 
 using namespace verif;
 namespace M = AIToolbox::MDP;
@@ -420,6 +422,189 @@ static void thompsonCase(const char * comp, Rng & rng, long nrec, int rewardMode
 }
 
 // ---------------------------------------------------------------------------------------------
+// Thompson models with the engine outputs: the harness replays the model's private std::mt19937 from the
+// same seed (ThompsonModel: Seeder::getSeed() under a fixed root seed; CooperativeThompsonModel: the engine is
+// default-constructed) and performs the same sequence of distribution calls, so it knows every draw.
+struct TRow { std::vector<size_t> cnt; size_t N; double mean, M2; std::vector<double> g; double t, sd; };
+
+static TRow shadowSync(std::mt19937 & eng, const std::vector<size_t> & cnt, size_t N, double mean, double M2) {
+    TRow r{cnt, N, mean, M2, {}, 0.0, 0.0};
+    for (auto c : cnt) { std::gamma_distribution<double> d((double)c + 0.5, 1.0); r.g.push_back(d(eng)); }
+    if (N >= 2) {
+        std::student_t_distribution<double> d((double)(N - 1));
+        r.t = d(eng);
+        r.sd = std::sqrt(M2 / (double)(N * (N - 1)));
+    }
+    return r;
+}
+
+static void emitT(Line & l, const TRow & r) {
+    for (auto c : r.cnt) l << c;
+    l << r.N << r.mean << r.M2;
+    for (auto g : r.g) l << g;
+    l << r.t << r.sd;
+}
+
+template <class E>
+static void tsyncCase(const char * comp, Rng & rng, long nrec, int rewardMode) {
+    size_t S = (size_t)rng.range(1, 5), A = (size_t)rng.range(1, 3);
+    unsigned root = (unsigned)rng.next();
+    AIToolbox::Seeder::setRootSeed(root);
+    unsigned seed = AIToolbox::Seeder::getSeed();
+    AIToolbox::Seeder::setRootSeed(root);
+    E exp(S, A);
+    // some data before construction in half of the cases
+    if (rng.coin()) for (long k = 0; k < nrec / 2; ++k) exp.record(rng.below(S), rng.below(A), rng.below(S), drawReward(rng, rewardMode));
+    std::mt19937 shadow(seed);
+    std::vector<TRow> last(S * A);
+    auto snap = [&](size_t s, size_t a) {
+        std::vector<size_t> cnt(S); for (size_t s1 = 0; s1 < S; ++s1) cnt[s1] = exp.getVisits(s, a, s1);
+        last[s * A + a] = shadowSync(shadow, cnt, exp.getVisitsSum(s, a), exp.getReward(s, a), exp.getM2(s, a));
+    };
+    auto syncAllShadow = [&]() { for (size_t a = 0; a < A; ++a) for (size_t s = 0; s < S; ++s) snap(s, a); };
+    auto emit = [&](const M::ThompsonModel<E> & tm) {
+        Line l; l << "C07" << "tsync" << comp << S << S * A;
+        for (size_t s = 0; s < S; ++s) for (size_t a = 0; a < A; ++a) {
+            emitT(l, last[s * A + a]);
+            for (size_t s1 = 0; s1 < S; ++s1) l << tm.getTransitionProbability(s, a, s1);
+            l << tm.getExpectedReward(s, a, 0);
+        }
+        l.emit();
+    };
+    M::ThompsonModel<E> tm(exp, 0.9); syncAllShadow();
+    emit(tm);
+    for (long k = 0; k < nrec; ++k) {
+        size_t s = rng.coin(2, 3) ? 0 : rng.below(S), a = rng.below(A);
+        exp.record(s, a, rng.below(S), drawReward(rng, rewardMode));
+        if (rng.coin(1, 3)) { snap(s, a); tm.sync(s, a); }
+        if (rng.coin(1, 40)) { syncAllShadow(); tm.sync(); emit(tm); }
+    }
+    emit(tm);
+    if (rng.coin()) { exp.reset(); syncAllShadow(); tm.sync(); emit(tm); }
+}
+
+static void tsyncCoopCase(Rng & rng, long nrec, int rewardMode) {
+    F::DDNGraph g = randomGraph(rng);
+    const auto & S = g.getS(); const auto & A = g.getA();
+    size_t nf = S.size();
+    FM::CooperativeExperience exp(g);
+    std::mt19937 shadow;     // CooperativeThompsonModel never seeds its engine
+    std::vector<std::vector<TRow>> last(nf);
+    for (size_t i = 0; i < nf; ++i) last[i].resize(g.getSize(i));
+    auto snap = [&](size_t i, size_t j) {
+        std::vector<size_t> cnt(S[i]); for (size_t k = 0; k < S[i]; ++k) cnt[k] = exp.getVisitsTable()[i](j, k);
+        last[i][j] = shadowSync(shadow, cnt, exp.getVisitsTable()[i](j, S[i]), exp.getRewardMatrix()[i][j], exp.getM2Matrix()[i][j]);
+    };
+    auto syncAllShadow = [&]() { for (size_t i = 0; i < nf; ++i) for (size_t j = 0; j < g.getSize(i); ++j) snap(i, j); };
+    auto emit = [&](const FM::CooperativeThompsonModel & tm) {
+        for (size_t i = 0; i < nf; ++i) {
+            Line l; l << "C07" << "tsync" << "CooperativeThompsonModel" << S[i] << g.getSize(i);
+            for (size_t j = 0; j < g.getSize(i); ++j) {
+                emitT(l, last[i][j]);
+                for (size_t k = 0; k < S[i]; ++k) l << tm.getTransitionFunction().transitions[i](j, k);
+                l << tm.getRewardFunction()[i][j];
+            }
+            l.emit();
+        }
+    };
+    FM::CooperativeThompsonModel tm(exp, 0.9); syncAllShadow();
+    emit(tm);
+    for (long k = 0; k < nrec; ++k) {
+        F::State s(nf), s1(nf); F::Action a(A.size());
+        for (size_t q = 0; q < nf; ++q) { s[q] = rng.coin(3, 4) ? 0 : rng.below(S[q]); s1[q] = rng.below(S[q]); }
+        for (size_t q = 0; q < A.size(); ++q) a[q] = rng.below(A[q]);
+        F::Rewards rews(nf); for (size_t i = 0; i < nf; ++i) rews[i] = drawReward(rng, rewardMode);
+        const auto & ids = exp.record(s, a, s1, rews);
+        if (rng.coin(1, 3)) {
+            for (size_t i = 0; i < nf; ++i) snap(i, g.getId(i, s, a));
+            if (rng.coin()) tm.sync(s, a); else tm.sync(ids);
+        }
+        if (rng.coin(1, 40)) { syncAllShadow(); tm.sync(); emit(tm); }
+    }
+    emit(tm);
+}
+
+// ---------------------------------------------------------------------------------------------
+// table setters (setVisitsTable / setRewardMatrix / setM2Matrix, Eigen-typed and element-wise overloads) interleaved
+// with record / reset, and a MaximumLikelihoodModel constructed with sync = true over the loaded tables
+template <class E> struct SetterTypes;
+template <> struct SetterTypes<M::Experience> {
+    static constexpr const char * name = "dense-set"; static constexpr bool tol = false;
+    static void setV(M::Experience & e, const std::vector<std::vector<std::vector<unsigned long>>> & v, size_t S, size_t A) {
+        AIToolbox::Table3D t(A, AIToolbox::Table2D(S, S));
+        for (size_t s = 0; s < S; ++s) for (size_t a = 0; a < A; ++a) for (size_t s1 = 0; s1 < S; ++s1) t[a](s, s1) = v[s][a][s1];
+        e.setVisitsTable(t);
+    }
+    static void setM(M::Experience & e, const std::vector<std::vector<double>> & r, size_t S, size_t A, bool m2) {
+        AIToolbox::Matrix2D m(S, A);
+        for (size_t s = 0; s < S; ++s) for (size_t a = 0; a < A; ++a) m(s, a) = r[s][a];
+        if (m2) e.setM2Matrix(m); else e.setRewardMatrix(m);
+    }
+};
+template <> struct SetterTypes<M::SparseExperience> {
+    static constexpr const char * name = "sparse-set"; static constexpr bool tol = true;
+    static void setV(M::SparseExperience & e, const std::vector<std::vector<std::vector<unsigned long>>> & v, size_t S, size_t A) {
+        AIToolbox::SparseTable3D t(A, AIToolbox::SparseTable2D(S, S));
+        for (size_t s = 0; s < S; ++s) for (size_t a = 0; a < A; ++a) for (size_t s1 = 0; s1 < S; ++s1) if (v[s][a][s1]) t[a].insert(s, s1) = v[s][a][s1];
+        e.setVisitsTable(t);
+    }
+    static void setM(M::SparseExperience & e, const std::vector<std::vector<double>> & r, size_t S, size_t A, bool m2) {
+        AIToolbox::SparseMatrix2D m(S, A);
+        for (size_t s = 0; s < S; ++s) for (size_t a = 0; a < A; ++a) if (r[s][a] != 0.0) m.insert(s, a) = r[s][a];
+        if (m2) e.setM2Matrix(m); else e.setRewardMatrix(m);
+    }
+};
+
+template <class E>
+static void setterCase(Rng & rng, long nops, double junk) {
+    using T = SetterTypes<E>;
+    size_t S = (size_t)rng.range(1, 4), A = (size_t)rng.range(1, 2);
+    E exp(S, A);
+    std::vector<std::string> toks; size_t n = 0;
+    auto N = [&](size_t x) { toks.push_back(std::to_string(x)); };
+    auto D = [&](double x) { toks.push_back(X(x)); };
+    auto obs = [&](size_t s, size_t a) { for (size_t s1 = 0; s1 < S; ++s1) N(exp.getVisits(s, a, s1)); N(exp.getVisitsSum(s, a)); D(exp.getReward(s, a)); D(exp.getM2(s, a)); };
+    auto dump = [&]() { for (size_t s = 0; s < S; ++s) for (size_t a = 0; a < A; ++a) obs(s, a); };
+    for (long k = 0; k < nops; ++k) {
+        unsigned roll = (unsigned)rng.below(100);
+        if (roll < 50) {
+            size_t s = rng.below(S), a = rng.below(A), s1 = rng.below(S); double r = drawReward(rng, 0);
+            exp.record(s, a, s1, r);
+            toks.push_back("r"); N(s * A + a); N(s1); D(r); obs(s, a);
+        } else if (roll < 55) {
+            exp.reset(); toks.push_back("R"); dump();
+        } else if (roll < 67) {
+            std::vector<std::vector<std::vector<unsigned long>>> v(S, std::vector<std::vector<unsigned long>>(A, std::vector<unsigned long>(S, 0)));
+            for (auto & x : v) for (auto & y : x) for (auto & z : y) z = rng.coin(1, 2) ? 0 : (unsigned long)rng.range(1, 6);
+            if (rng.coin()) exp.setVisitsTable(v); else T::setV(exp, v, S, A);      // element-wise / Eigen-typed overload
+            toks.push_back("V"); for (size_t s = 0; s < S; ++s) for (size_t a = 0; a < A; ++a) for (size_t s1 = 0; s1 < S; ++s1) N(v[s][a][s1]);
+            dump();
+        } else if (roll < 87) {
+            bool m2 = roll >= 77;
+            std::vector<std::vector<double>> r(S, std::vector<double>(A, 0.0));
+            bool naive = rng.coin();
+            for (auto & x : r) for (auto & y : x) {
+                unsigned c = (unsigned)rng.below(8);
+                y = c < 2 ? 0.0 : (c == 2 ? 5e-7 : (m2 ? (double)rng.range(0, 40) / 4.0 : (double)rng.range(-32, 32) / 4.0));   // 5e-7: below the sparse element-wise store threshold
+            }
+            if (naive) { if (m2) exp.setM2Matrix(r); else exp.setRewardMatrix(r); } else T::setM(exp, r, S, A, m2);
+            toks.push_back(m2 ? "Q" : "M"); N(naive && T::tol ? 1 : 0);
+            for (size_t s = 0; s < S; ++s) for (size_t a = 0; a < A; ++a) D(r[s][a]);
+            dump();
+        } else {
+            M::MaximumLikelihoodModel<E> mod(exp, 0.9, true);
+            toks.push_back("F");
+            for (size_t s = 0; s < S; ++s) for (size_t a = 0; a < A; ++a) { for (size_t s1 = 0; s1 < S; ++s1) D(mod.getTransitionProbability(s, a, s1)); D(mod.getExpectedReward(s, a, 0)); }
+        }
+        ++n;
+    }
+    Line l; l << "C07" << "sethist" << T::name << S * A << S << A << junk << n;
+    for (auto & t : toks) l << t;
+    l.emit();
+    std::printf("#stat setters_%s 1\n", T::name);
+}
+
+// ---------------------------------------------------------------------------------------------
 static const long kFixed = 12;
 
 long verif::verif_ncases(const std::string & tier) { return kFixed + (tier == "thorough" ? 5000 : 330); }
@@ -531,6 +716,11 @@ void verif::verif_case(Rng & rng, long idx, const std::string & tier) {
         std::printf("#stat flat_gsparse 1\n");
         return;
     }
+    if (k % 13 == 12) {
+        if (rng.coin()) setterCase<M::Experience>(rng, rng.range(2, tier == "thorough" ? 400 : 80), junk);
+        else setterCase<M::SparseExperience>(rng, rng.range(2, tier == "thorough" ? 400 : 80), junk);
+        return;
+    }
     switch (k % 11) {
         case 0: case 1: randomFlat<DenseDense>("dense", rng, tier, idx, true, junk); break;
         case 2: randomFlat<SparseDense>("dsparse", rng, tier, idx, true, junk); break;
@@ -540,7 +730,16 @@ void verif::verif_case(Rng & rng, long idx, const std::string & tier) {
         case 7: fbanditCase(rng, rng.range(1, nops), rng.coin(1, 5) ? 1 : 0, junk); std::printf("#stat fbandit 1\n"); break;
         case 8: case 9: coopCase(rng, rng.range(1, nops), rng.coin(1, 5) ? 1 : 0, junk, rng.coin(1, 3)); std::printf("#stat coop 1\n"); break;
         case 10:
-            if (rng.coin(2, 3)) { thompsonCase<M::Experience>("ThompsonModel", rng, rng.range(0, nops), rng.coin(1, 5) ? 1 : 0); std::printf("#stat thompson 1\n"); }
+            if (rng.coin(1, 2)) {
+                switch (rng.below(4)) {
+                    case 0: tsyncCase<M::Experience>("ThompsonModel", rng, rng.range(0, nops), rng.coin(1, 5) ? 1 : 0); break;
+                    case 1: tsyncCase<M::SparseExperience>("ThompsonModel<SparseExperience>", rng, rng.range(0, nops), rng.coin(1, 5) ? 1 : 0); break;
+                    case 2: tsyncCase<GenericExperience>("ThompsonModel<generic>", rng, rng.range(0, nops), rng.coin(1, 5) ? 1 : 0); break;
+                    default: tsyncCoopCase(rng, rng.range(0, nops), rng.coin(1, 5) ? 1 : 0); break;
+                }
+                std::printf("#stat thompson_with_draws 1\n");
+            }
+            else if (rng.coin(2, 3)) { thompsonCase<M::Experience>("ThompsonModel", rng, rng.range(0, nops), rng.coin(1, 5) ? 1 : 0); std::printf("#stat thompson 1\n"); }
             else { thompsonCase<GenericExperience>("ThompsonModel<generic>", rng, rng.range(0, nops), rng.coin(1, 5) ? 1 : 0); std::printf("#stat thompson_generic 1\n"); }   // element-wise gamma branch
             break;
     }
